@@ -13,12 +13,26 @@ package lnwire
 //   - fixpoint_reencode / fixpoint_redecode / fixpoint_bytes: an accepted
 //     input b yields m1; b1 = encode(m1) must succeed, decode(b1) must
 //     succeed, and encode(decode(b1)) == b1 byte for byte.
+//   - reencode_decodes_equal (c10fd_test.go): in the same chain m2 =
+//     decode(b1) must EQUAL m1 ["yields a message whose re-encoding decodes to
+//     an equal message"]; m1 is taken from an independent second decode of b
+//     because the real Encode methods rewrite ExtraData of their receiver.
+//     key "<decoded msg>|<first differing field path>". Evaluated on every
+//     accepted input incl. the extension mutants (classes ext-*, among them
+//     ext-valdom / ext-insknown: one extension record at a boundary VALUE,
+//     resp. a record the encoder elides at its default inserted with boundary
+//     values).
 //   - lossless_encode / lossless_size / lossless_decode / lossless_bytes /
 //     lossless_value: a
 //     generated message value v encodes to b0 with len(b0) <= 65535, b0
 //     decodes, re-encodes to b0 and the decoded value equals v (nil == empty
 //     for slices and maps; covers ExtraData / CustomRecords / unknown
 //     records).
+//
+//   - wellformed_roundtrip (c10fd_test.go): field-domain values: ONE scalar
+//     leaf of a generated value at a boundary value; keys
+//     "<target>|value-differs|fd:<leaf>", "...|reencode-differs|fd:<leaf>",
+//     "...|encoded-over-65535|fd:<leaf>".
 //
 //   - wellformed_roundtrip (c10wf_test.go): harness-built well-formed values
 //     with one variable-length field at a boundary length; keys
@@ -44,9 +58,9 @@ package lnwire
 //
 // Diagnostics: ext_reencode_reproduces_input (accepted + canonical extension
 // must re-encode to the input; NOT silent on the pinned tree: typed-record
-// messages drop unknown extension records), fixpoint_value_repr (m1 vs m2 differ structurally although
-// their encodings are identical), lossless_strict_deepequal, alloc > 4 MiB,
-// generator failures.
+// messages drop unknown extension records), extdiff_typed_copy_only (ExtraData of a
+// typed-record message differs only in the raw copy of typed records), fd_own_encoding_rejected,
+// fd_encode_panic, lossless_strict_deepequal, alloc > 4 MiB, generator failures.
 
 import (
 	"bytes"
@@ -770,7 +784,12 @@ func (h *verifC10H) viol(oracle, key, detail string, wit any) {
 	}
 	k := oracle + "\x00" + key
 	h.attrib[k]++
-	if h.attrib[k] > 3 {
+	limit := 3
+	if strings.HasSuffix(key, "|unknown-records-dropped-on-reencode") {
+		// the known class KF-C10-6: one report per message type and shard
+		limit = 1
+	}
+	if h.attrib[k] > limit {
 		h.vc.Count("suppressed_repeat_violations", 1)
 		return
 	}
@@ -825,22 +844,44 @@ func (h *verifC10H) checkBytes(tg verifC10Target, class string, b []byte, measur
 		return false, nil
 	}
 	vc.Count("accepted", 1)
-	vc.Count("fixpoint_evals", 1)
 	vc.Sig(verifJoin(tg.Name, class, "acc"))
+	return true, h.fixpoint(tg, class, b, m1)
+}
 
+// fixpoint runs the fixpoint oracles on the accepted input b (decoded to m1):
+// b1 = encode(m1), m2 = decode(b1), b2 = encode(m2); b1 == b2 and m1 == m2.
+// m1 is handed to the real encoder, which may rewrite its ExtraData, so the
+// value comparison uses an independent second decode of b. Returns b1 (nil
+// when the re-encoding failed).
+func (h *verifC10H) fixpoint(tg verifC10Target, class string, b []byte, m1 any) []byte {
+	vc := h.vc
+	vc.Count("fixpoint_evals", 1)
 	var (
 		b1, b2  []byte
+		m1ref   any
 		m2      any
 		tooLong bool
+		err     error
 	)
+	if vc.Guard("no_panic", tg.Name+"|decode", h.witness(tg, class, b), func() {
+		m1ref, err = tg.decode(b)
+	}) {
+		return nil
+	}
+	if err != nil {
+		// the decoder accepted b a moment ago
+		h.viol("fixpoint_redecode", verifC10Actual(tg, m1)+"|second-decode-of-input-fails", fmt.Sprintf(
+			"the same input was accepted and then rejected: %v", err), h.witness(tg, class, b))
+		return nil
+	}
 	if vc.Guard("no_panic", tg.Name+"|reencode", h.witness(tg, class, b), func() {
 		b1, tooLong, err = tg.encode(m1)
 	}) {
-		return true, nil
+		return nil
 	}
 	if tooLong {
 		vc.Count("failpkt_over_256", 1)
-		return true, nil
+		return nil
 	}
 	actual := verifC10Actual(tg, m1)
 	if err != nil {
@@ -851,23 +892,27 @@ func (h *verifC10H) checkBytes(tg verifC10Target, class string, b []byte, measur
 		h.viol("fixpoint_reencode", key, fmt.Sprintf(
 			"decode accepted the input but the decoded message does not encode: %v", err),
 			h.witness(tg, class, b))
-		return true, nil
+		return nil
 	}
 	if vc.Guard("no_panic", tg.Name+"|redecode", h.witness(tg, class, b), func() {
 		m2, err = tg.decode(b1)
 	}) {
-		return true, b1
+		return b1
 	}
 	if err != nil {
 		h.viol("fixpoint_redecode", actual, fmt.Sprintf(
 			"b->m1->b1: decode(b1) failed: %v; b1=%s", err, verifHex(b1[:min(len(b1), 512)])),
 			h.witness(tg, class, b))
-		return true, b1
+		return b1
 	}
+	// m1 == m2, judged before m2 is handed to the encoder
+	vc.Count("reencode_decodes_equal_evals", 1)
+	var res verifC10DiffRes
+	verifC10Diff(reflect.ValueOf(m1ref), reflect.ValueOf(m2), nil, "", 0, &res)
 	if vc.Guard("no_panic", tg.Name+"|reencode2", h.witness(tg, class, b), func() {
 		b2, _, err = tg.encode(m2)
 	}) {
-		return true, b1
+		return b1
 	}
 	if err != nil || !bytes.Equal(b1, b2) {
 		d := 0
@@ -878,12 +923,23 @@ func (h *verifC10H) checkBytes(tg verifC10Target, class string, b []byte, measur
 			"b1 != b2 (err=%v) len(b1)=%d len(b2)=%d first difference at %d; b1=%s b2=%s",
 			err, len(b1), len(b2), d, verifHex(b1[:min(len(b1), 400)]),
 			verifHex(b2[:min(len(b2), 400)])), h.witness(tg, class, b))
-		return true, b1
+		return b1
 	}
-	if ok, p := verifC10Eq(reflect.ValueOf(m1), reflect.ValueOf(m2), "", 0); !ok {
-		vc.Diag("fixpoint_value_repr", tg.Name+" differs at "+p)
+	if h.attrib == nil {
+		// race unit (concurrent callers, no per-shard throttle): the value
+		// oracle is evaluated by the lnwire unit on the same inputs
+		return b1
 	}
-	return true, b1
+	if len(res.Paths) > 0 || len(res.Ext) > 0 {
+		wit := h.witness(tg, class, b)
+		wit["reencoding"] = verifHex(b1[:min(len(b1), 2048)])
+		if h.judgeDiff("reencode_decodes_equal", func(what string) string { return actual + "|" + what },
+			&res, "b->m1->b1->m2 ("+class+")", wit) {
+
+			vc.Count("reencode_decodes_equal_extdiag_only", 1)
+		}
+	}
+	return b1
 }
 
 // checkLossless runs the generated-value oracle.
@@ -1280,6 +1336,14 @@ func (h *verifC10H) checkExt(r *verifRng, tg verifC10Target, b0 []byte) {
 	}
 	vc.Count("ext_values", 1)
 	muts, classes := verifC10ExtMutants(r, e, recs)
+	{
+		// value-domain mutants draw from a copy of the stream (the case
+		// stream of the older classes is left untouched)
+		rc := *r
+		m2, c2 := verifC10ExtValueMutants(rc.Fork("ext-valdom"), tg.Msg, e, recs)
+		muts, classes = append(muts, m2...), append(classes, c2...)
+		vc.Count("ext_valdom_mutants", int64(len(m2)))
+	}
 	for i, e2 := range muts {
 		b := append(append([]byte{}, f...), e2...)
 		if len(b) > 65535 {
@@ -1309,6 +1373,13 @@ func (h *verifC10H) checkExt(r *verifRng, tg verifC10Target, b0 []byte) {
 		vc.Count("accepted", 1)
 		vc.Sig(verifJoin(tg.Name, class, "acc"))
 		actual := verifC10Actual(tg, m1)
+		// the accepted extension mutant also goes through the fixpoint
+		// oracles (b1 == b2, m1 == m2)
+		vc.Count("ext_fixpoint_evals", 1)
+		if strings.HasPrefix(class, "ext-valdom") || strings.HasPrefix(class, "ext-insknown") {
+			vc.Count("ext_valdom_accepted", 1)
+		}
+		h.fixpoint(tg, class, b, m1)
 		vc.Count("ext_accept_implies_canonical_evals", 1)
 		if !canon {
 			wit := h.witness(tg, class, b)
@@ -1411,6 +1482,9 @@ func (h *verifC10H) runCase(r *verifRng, tg verifC10Target, tgs []verifC10Target
 			continue
 		}
 		valids = append(valids, b0)
+		if tg.Kind == 0 {
+			verifC10NoteKnownExt(tg.Msg, b0)
+		}
 		// The valid encoding itself also goes through the byte
 		// oracle (its fixpoint must be itself).
 		acc, b1 := h.checkBytes(tg, "valid", b0, true)
@@ -1521,6 +1595,9 @@ func (h *verifC10H) runCase(r *verifRng, tg verifC10Target, tgs []verifC10Target
 		// first visit of the target: record what was generated
 		vc.Note("wf:"+tg.Name, strings.Join(table, " "))
 	}
+	// Field-domain values (c10fd_test.go): one scalar leaf of a generated
+	// value at a time at its boundary values.
+	h.runFieldDomain(r.Fork("fd"), tg)
 }
 
 func TestVerifC10(t *testing.T) {
@@ -1536,6 +1613,7 @@ func TestVerifC10(t *testing.T) {
 	}
 	vc.Note("message_types", fmt.Sprint(nmsg))
 
+	verifC10Prepass(tgs)
 	attrib := map[string]int{}
 	rounds := vc.N(12, 400) // every target is visited this many times
 	nValid, nMut := 4, 40
@@ -1565,6 +1643,7 @@ func TestVerifC10Race(t *testing.T) {
 	vc := verifStart(t, "C10", "lnwire_race")
 	defer vc.Finish()
 	tgs := verifC10Targets()
+	verifC10Prepass(tgs)
 	rounds := vc.N(1, 6)
 	total := rounds * len(tgs)
 	for i := 0; i < total; i++ {
